@@ -71,6 +71,17 @@ def registered(classes: list):
         reg.__dict__.pop('conventions', None)
 
 
+_ENTRY_POINTS: list = []
+
+
+def entry_points() -> list:
+    """the entry-point classes, read once per run through the public function (slow: scans metadata)"""
+    if not _ENTRY_POINTS:
+        from emsarray.conventions import _registry
+        _ENTRY_POINTS.extend(_registry.entry_point_conventions())
+    return list(_ENTRY_POINTS)
+
+
 def cls_name(c) -> str:
     return c.__name__
 
@@ -107,7 +118,8 @@ def impl_convs() -> str:
 # --------------------------------------------------------------------------
 # direct property oracle for detection (independent of the Lean model)
 
-def oracle_detect(ctx, ds, feat: dict, reg_tokens: list, table: dict, desc: dict, pristine: str | None = None) -> str:
+def oracle_detect(ctx, ds, feat: dict, reg_tokens: list, table: dict, desc: dict, pristine: str | None = None,
+                  rebuild: bool = True) -> str:
     """Brute-force statement of the detection clauses of C11 on the real code.
     Returns 'OK' or 'FAIL:<signature>' (also reported through ctx.oracle_fail)."""
     from emsarray.conventions import _registry, get_dataset_convention
@@ -118,7 +130,7 @@ def oracle_detect(ctx, ds, feat: dict, reg_tokens: list, table: dict, desc: dict
         ctx.oracle_fail(sig, desc, msg)
     # registry order: registered first, then entry points, first occurrence kept
     order = []
-    for c in [table[t] for t in reg_tokens] + list(_registry.entry_point_conventions()):
+    for c in [table[t] for t in reg_tokens] + entry_points():
         if c not in order:
             order.append(c)
     results = {}
@@ -174,7 +186,7 @@ def oracle_detect(ctx, ds, feat: dict, reg_tokens: list, table: dict, desc: dict
             fail('own-convention-not-detected', f'a {pristine} dataset was detected as {None if got is None else cls_name(got)}')
     # a function of the content alone: same answer again, and on an independent rebuild of the same content
     again = get_dataset_convention(ds)
-    rebuilt = get_dataset_convention(R.build_raw(R.to_raw(ds)))
+    rebuilt = get_dataset_convention(R.build_raw(R.to_raw(ds))) if rebuild else got
     if again is not got or rebuilt is not got:
         fail('detection-not-deterministic', f'{got} then {again}; on a rebuilt equal dataset {rebuilt}')
     return 'OK' if not fails else 'FAIL:' + fails[0]
@@ -351,6 +363,58 @@ def execute_history(datasets_recipes: list, reg_tokens: list, syn: dict, ops: li
     return hist, flines
 
 
+TINY = {'raw': {'attrs': {}, 'sizes': {'y': 2, 'x': 2}, 'vars': [
+    {'name': 'lat', 'dims': ['y'], 'attrs': {'units': 'degrees_north'}, 'coord': False},
+    {'name': 'lon', 'dims': ['x'], 'attrs': {'units': 'degrees_east'}, 'coord': False}]}}
+
+
+def shrink_history(desc: dict, sig: str) -> tuple[dict, str | None]:
+    """Greedy minimisation of a failing history: drop operations, registrations and replace
+    datasets by a tiny CF grid as long as the same signature is still raised."""
+    def fails(d):
+        try:
+            h, _ = execute_history(d['datasets'], d['reg'], d['syn'], d['ops'], d['copy_kinds'])
+        except Exception:
+            return None
+        for s_, m in h.violations:
+            if s_ == sig:
+                return m
+        return None
+    best = dict(desc)
+    msg = fails(best)
+    if msg is None:
+        return desc, None
+    changed = True
+    while changed:
+        changed = False
+        for i in reversed(range(len(best['ops']))):
+            cand = dict(best, ops=best['ops'][:i] + best['ops'][i + 1:],
+                        copy_kinds=best['copy_kinds'][:i] + best['copy_kinds'][i + 1:])
+            m = fails(cand)
+            if m is not None:
+                best, msg, changed = cand, m, True
+        for i in reversed(range(len(best['reg']))):
+            cand = dict(best, reg=best['reg'][:i] + best['reg'][i + 1:])
+            m = fails(cand)
+            if m is not None:
+                best, msg, changed = cand, m, True
+        for i in range(len(best['datasets'])):
+            if best['datasets'][i] != TINY:
+                cand = dict(best, datasets=best['datasets'][:i] + [TINY] + best['datasets'][i + 1:])
+                m = fails(cand)
+                if m is not None:
+                    best, msg, changed = cand, m, True
+        if len(best['datasets']) > 1:
+            cand = dict(best, datasets=best['datasets'][:-1])
+            m = fails(cand)
+            if m is not None:
+                best, msg, changed = cand, m, True
+    used = {t[1:] for t in best['reg'] if t.startswith('S')} | {
+        o.split(':S')[1] for o in best['ops'] if ':S' in o}
+    best['syn'] = {i: v for i, v in best['syn'].items() if i in used}
+    return best, msg
+
+
 def hist_line(kind: str, reg_tokens, syn, flines, ops) -> str:
     return (f"{kind} {R.reg_line(reg_tokens)} {R.syn_line(syn)} D={'#'.join(flines) if flines else '-'} "
             f"ops={','.join(ops) if ops else '-'}")
@@ -425,7 +489,8 @@ def registration_cases(ctx, ds, recipe: dict, feat: dict, items: list, exhaustiv
                 convs = impl_convs()
                 m = impl_match(ds)
                 det = impl_detect(ds)
-                verdict = oracle_detect(ctx, ds, feat, reg_tokens, table, {**desc, 'op': 'detect'})
+                verdict = oracle_detect(ctx, ds, feat, reg_tokens, table, {**desc, 'op': 'detect'},
+                                        rebuild=(len(seen) % 8 == 1))
             rl, sl = R.reg_line(reg_tokens), R.syn_line(syn_used)
             line = f'convs {rl}'
             items.append((line, convs, {**desc, 'op': line}))
@@ -452,7 +517,7 @@ def run(ctx) -> None:
     pool_for_hist: list = []     # (recipe, feat) of datasets to run histories / registrations on
 
     # ---- (1) pristine datasets and (2) their near-misses --------------------
-    n_pristine = ctx.budget(3, 12)
+    n_pristine = ctx.budget(6, 18)
     nm_cap = ctx.budget(40, 400)
     for conv in G.CONVS:
         for k in range(n_pristine):
@@ -488,7 +553,7 @@ def run(ctx) -> None:
                     pool_for_hist.append((r2, f2, 'near-miss'))
 
     # ---- (3) random raw recipes, valid-ish and malformed ---------------------
-    for k in range(ctx.budget(150, 1500)):
+    for k in range(ctx.budget(800, 6000)):
         malformed = (k % 3 == 2)
         raw = R.random_raw(rng, malformed=malformed)
         recipe = {'raw': raw}
@@ -507,14 +572,14 @@ def run(ctx) -> None:
     # ---- (4) registration orders ------------------------------------------------
     reg_sample = list(pool_for_hist)
     rng.shuffle(reg_sample)
-    n_reg = ctx.budget(14, 80)
+    n_reg = ctx.budget(40, 200)
     for idx, (recipe, feat, kind) in enumerate(reg_sample[:n_reg]):
         ds = R.build(recipe)
         registration_cases(ctx, ds, recipe, feat, items, exhaustive_specs=(idx < ctx.budget(2, 6)))
 
     # ---- (5) histories ------------------------------------------------------------
     max_len = 12 if ctx.thorough else 8
-    n_hist = ctx.budget(250, 2500)
+    n_hist = ctx.budget(2000, 12000)
     builtin_tokens = list(R.BUILTINS)
     for h in range(n_hist):
         nds = rng.choice([1, 1, 2, 2, 3])
@@ -544,7 +609,16 @@ def run(ctx) -> None:
         items.append((line, ','.join(hist.outs), {**desc, 'op': 'hist'}))
         line = hist_line('propcheck hist', reg_tokens, syn, flines, ops)
         items.append((line, 'OK', {**desc, 'op': 'propcheck hist'}))
-        for sig, msg in hist.violations[:3]:
+        reported = set()
+        for sig, msg in hist.violations:
+            if sig in reported:
+                continue
+            reported.add(sig)
+            if len(ctx.oracle_failures) < 3:
+                small, smsg = shrink_history({**desc}, sig)
+                if smsg is not None:
+                    ctx.oracle_fail(sig, {**small, 'op': 'hist'}, smsg)
+                    continue
             ctx.oracle_fail(sig, desc, msg)
         if any(o.startswith('y') for o in ops) or 'E:bound' in hist.outs:
             ctx.nontrivial(('hist', tuple(flines), tuple(reg_tokens), tuple(ops)))
